@@ -36,7 +36,7 @@ Qed.
 Lemma job_same_eq j j' :
   job_same j j' = true ->
   j_api j = j_api j' /\ j_phase j = j_phase j' /\ j_passed j = j_passed j'
-  /\ j_waiting j = j_waiting j' /\ j_arb j = j_arb j'.
+  /\ j_waiting j = j_waiting j'.
 Proof.
   unfold job_same. intro H.
   repeat (apply andb_true_iff in H; destruct H as [H ?]).
@@ -45,14 +45,20 @@ Qed.
 
 Lemma jrel_refl c st0 j : jrel c st0 j j.
 Proof.
-  repeat split. unfold job_outcome_okb. rewrite job_same_refl. destruct (negb (j_waiting j)); reflexivity.
+  repeat split. unfold job_outcome_okb. rewrite job_same_refl.
+  destruct (negb (j_api j) && negb (j_api j)); [reflexivity|]. destruct (negb (j_waiting j)); reflexivity.
 Qed.
 
-(* a still-waiting current job is observably equal to its original *)
+(* a still-waiting current job is observably equal to its original (unless it is not in the API) *)
 Lemma jrel_waiting c st0 j0 j :
-  jrel c st0 j0 j -> j_waiting j = true -> j_waiting j0 = true /\ job_same j0 j = true.
+  jrel c st0 j0 j -> j_waiting j = true ->
+  (j_api j0 = false /\ j_api j = false) \/ (j_waiting j0 = true /\ job_same j0 j = true).
 Proof.
   intros [_ [_ H]] Hw. unfold job_outcome_okb in H.
+  destruct (negb (j_api j0) && negb (j_api j)) eqn:EE.
+  { left. apply andb_true_iff in EE. destruct EE as [E1 E2].
+    apply negb_true_iff in E1. apply negb_true_iff in E2. auto. }
+  right.
   destruct (j_waiting j0) eqn:E0; cbn [negb] in H.
   - split; [reflexivity|].
     apply orb_true_iff in H. destruct H as [H|H].
@@ -60,7 +66,7 @@ Proof.
       repeat (apply andb_true_iff in H; destruct H as [H ?]).
       rewrite Hw in *. discriminate.
     + repeat (apply andb_true_iff in H; destruct H as [H ?]). rewrite Hw in *. discriminate.
-  - apply job_same_eq in H. destruct H as [_ [_ [_ [H _]]]]. congruence.
+  - apply job_same_eq in H. destruct H as [_ [_ [_ H]]]. congruence.
 Qed.
 
 Lemma pod_of_eq st st0 j j0 :
@@ -94,26 +100,29 @@ Proof.
     apply Z.eqb_eq in E. cbn [mark_passed j_id] in E.
     apply find_job_in in Hf. destruct Hf as [Hjin _].
     assert (x = j) by (eapply (NoDup_key_inj j_id); eauto). subst x.
-    destruct (jrel_waiting _ _ _ _ Hrel Hw) as [Hw0 Hsame].
+    destruct (jrel_waiting _ _ _ _ Hrel Hw) as [[_ Hna]|[Hw0 Hsame]]; [congruence|].
     destruct Hrel as [Hid [Hpod _]]. apply job_same_eq in Hsame.
     destruct Hsame as [Hapi [Hph _]].
     repeat split; cbn [mark_passed j_id j_pod]; auto.
     unfold job_outcome_okb. rewrite Hw0. cbn [negb mark_passed j_api j_passed j_arb j_waiting j_phase].
-    rewrite Ha, Hph, Z.eqb_refl. cbn. rewrite orb_true_r. reflexivity.
+    rewrite Ha, Hph, Z.eqb_refl. cbn. rewrite andb_false_r, orb_true_r. reflexivity.
   - (* failed *)
     cbn [set_job a_jobs]. apply Forall2_map_r; [exact HF|].
     intros j0 x Hx Hrel. destruct (j_id x =? j_id (mark_failed w j)) eqn:E; [|exact Hrel].
     apply Z.eqb_eq in E. cbn [mark_failed j_id] in E.
     apply find_job_in in Hf. destruct Hf as [Hjin _].
     assert (x = j) by (eapply (NoDup_key_inj j_id); eauto). subst x.
-    destruct (jrel_waiting _ _ _ _ Hrel Hw) as [Hw0 Hsame].
+    destruct (jrel_waiting _ _ _ _ Hrel Hw) as [[Hna0 Hna]|[Hw0 Hsame]].
+    { destruct Hrel as [Hid [Hpod _]]. repeat split; cbn [mark_failed j_id j_pod]; auto.
+      unfold job_outcome_okb. cbn [mark_failed j_api]. rewrite Hna0, Hna. reflexivity. }
     destruct Hrel as [Hid [Hpod _]]. apply job_same_eq in Hsame.
-    destruct Hsame as [Hapi [Hph [Hpa [_ Har]]]].
+    destruct Hsame as [Hapi [Hph [Hpa _]]].
     repeat split; cbn [mark_failed j_id j_pod]; auto.
-    unfold job_outcome_okb. rewrite Hw0.
-    cbn [negb mark_failed j_api j_passed j_arb j_waiting j_phase].
+    unfold job_outcome_okb. cbn [mark_failed j_api].
+    destruct (negb (j_api j0) && negb (j_api j)); [reflexivity|]. rewrite Hw0.
+    cbn [negb mark_failed j_api j_passed j_waiting j_phase].
     rewrite <- (pod_of_eq st st0 j j0 Hpods Hpod), Hp, <- (nonretryable_eq c st st0 p Hwls), Hn.
-    rewrite Hpa, Har, !Bool.eqb_reflx. cbn [negb andb].
+    rewrite Hpa, !Bool.eqb_reflx. cbn [negb andb].
     assert (((if w then 3 else j_phase j) =? 3) || ((if w then 3 else j_phase j) =? j_phase j0) = true).
     { destruct w; [reflexivity|]. rewrite Hph, Z.eqb_refl. apply orb_true_r. }
     rewrite H. cbn. apply orb_true_r.
